@@ -25,10 +25,28 @@ class Universe:
         self.D = [M.Destination(name="Da"), M.CongestedDestination(name="Da" if clash else "Db")]
 
 
+def reading(net, items, which=None):
+    """A lazy iterable that looks the network up while a bulk/path call is consuming it (a user
+    filtering or resolving what to add against the network being built)."""
+    for it in items:
+        for m in (which or netmon.MEMOS):
+            getattr(net, m)
+        yield it
+
+
 def alphabet(U):
-    """~45 mutating calls as (kind, callable(net), description)."""
+    """~50 mutating calls as (kind, callable(net), description)."""
     N, L, O, D = U.N, U.L, U.O, U.D
     ops = []
+    ops.append(("add_nodes", lambda net: net.add_nodes(reading(net, N)), ("add_nodes", "generator reading the lookups 0,1,2")))
+    ops.append(("add_links", lambda net: net.add_links(reading(net, [(N[0], L[0], N[1]), (N[1], L[1], N[2])])),
+                ("add_links", "generator reading the lookups 0a1,1b2")))
+    ops.append(("add_links", lambda net: net.add_links(t for t in [(N[2], L[2], N[0]), (N[0], L[0], N[1]), (N[1], L[1], N[2])]
+                                                       if t[1].name not in net.links_by_name),
+                ("add_links", "generator skipping names already in links_by_name")))
+    ops.append(("add_path", lambda net: net.add_path(reading(net, (N[0], L[0], N[1], L[1], N[2]))), ("add_path", "generator reading the lookups 0a1b2")))
+    ops.append(("add_path", lambda net: net.add_path(reading(net, (N[1], L[2], N[2]), ("nodes_by_name", "links_by_name", "origins", "destinations")),
+                                                     origin=O[0], destination=D[0]), ("add_path", "reading generator 1c2+O0+D0")))
     for i in range(3):
         ops.append(("add_node", lambda net, i=i: net.add_node(N[i]), ("add_node", i)))
     ops.append(("add_nodes", lambda net: net.add_nodes([N[0], N[2]]), ("add_nodes", (0, 2))))
